@@ -184,6 +184,39 @@ let run (fn : string) (bs : coq_N list) (arg : int) : string * string =
   | "hevc.ParseSEINalu" ->
     let ctx = match nth_opt !ctx_hevcpt (arg - 1) with Some c -> c | None -> None in
     sei_result (C16SeiNaluModel.hevc_parse_sei_nalu ctx bs)
+  | "avc.ParseSPSAndSEI" ->
+    (* in = len1 SPS[len1] SEI-NALU: the SEI is decoded with what the hostile SPS says (harness cut1) *)
+    let (a, rest) = (match bs with
+        | [] -> ([], [])
+        | n :: t ->
+          let n = int_of_n n in
+          let rec take k l acc = if k = 0 then (L.rev acc, l) else
+              match l with [] -> (L.rev acc, []) | y :: r -> take (k - 1) r (y :: acc) in
+          take n t []) in
+    let sps = (match c16_parse_sps true a with Ok s -> Some s | _ -> None) in
+    sei_result (C16SeiNaluModel.avc_parse_sei_nalu (C16SeiNaluModel.avc_pt_of_sps sps) rest)
+  | "avc.DecConfRecAndSlice" ->
+    (* in = len (2 bytes, big endian) record, slice (harness cut2): record -> SPS/PPS maps -> slice header *)
+    (match bs with
+     | hi :: lo :: t ->
+       let n = int_of_n hi * 256 + int_of_n lo in
+       let rec take k l acc = if k = 0 then (L.rev acc, l) else
+           match l with [] -> (L.rev acc, []) | y :: r -> take (k - 1) r (y :: acc) in
+       let (recb, rest) = take n t [] in
+       (match C16ConfRecModel.avc_decode_dec_conf_rec recb with
+        | Ok (r, _) ->
+          let spss = L.concat (L.map (fun u -> match c16_parse_sps true u with Ok s -> [s] | _ -> []) r.C16ConfRecModel.ar_sps) in
+          let ppss = L.fold_left (fun acc u ->
+              match c16_parse_pps (chroma_lookup spss) u with Ok p -> acc @ [p] | _ -> acc) [] r.C16ConfRecModel.ar_pps in
+          show1 slice_string (c16_parse_slice (sps_lookup spss) (pps_lookup ppss) rest)
+        | Err -> ("err", "")
+        | Panic -> ("panic", "")
+        | OutOfFuel -> ("hang", ""))
+     | _ ->
+       (* fewer than 2 bytes: cut2 gives (nil, nil) *)
+       (match C16ConfRecModel.avc_decode_dec_conf_rec [] with
+        | Ok (r, _) -> show1 slice_string (c16_parse_slice (sps_lookup []) (pps_lookup []) [])
+        | Err -> ("err", "") | Panic -> ("panic", "") | OutOfFuel -> ("hang", "")))
   | "avc.GetSliceTypeFromNALU" -> show1 hex_of_n (get_slice_type bs)
   | "avc.ParsePSAndSlice" ->
     let (a, b, rest) = split3 bs in
